@@ -1,5 +1,6 @@
 (* Entry point of the executable model: one case tree in, one result tree out. The first leaf selects
    the property, the second the operation. The harness sends the same case to the implementation. *)
+From ToughV Require Import Model.RootCmd.
 From ToughV Require Import Model.Base Model.Pct Model.Json Model.CJson Model.ClientRun Model.TName.
 
 Definition run_C16 (op : N) (a : list tree) : tree :=
@@ -41,6 +42,7 @@ Definition run_case (t : tree) : tree :=
       else if p =? 11 then run_C11 op args
       else if p =? 8 then run_C08 op args
       else if p =? 6 then run_client op args
+      else if p =? 20 then run_C20 op args
       else T [L 999]
   | _ => T [L 999]
   end.
